@@ -1272,7 +1272,7 @@ func genMutOps(t *rapid.T) []MutOp {
 func gen(t *rapid.T) Case {
 	c := gen0(t)
 	if c.Trust != "" && rapid.Bool().Draw(t, "noise?") {
-		c.Noise = rapid.Uint64Range(1, 255).Draw(t, "noise")
+		c.Noise = rapid.Uint64Range(1, 1023).Draw(t, "noise")
 	}
 	return c
 }
